@@ -15,6 +15,7 @@ EXPLANATION = ("The magnitude x is a solver variable (any real incl. 0 and negat
                "round trip = x, via-intermediate = direct, reciprocal rule, number->rad rule, and that every path of a dimension-mismatched conversion raises "
                "and leaves the quantity's value term and unit text unchanged.")
 ASSUMPTIONS = unitkit.UNITS_STUB_TEXT + [
+    "a division by a term that may be zero forks; on the zero side the library's own ZeroDivisionError propagates and is reported (no denominator is assumed away)",
     "equalities are claimed up to 1e-9 relative (table factors are binary64 numbers the library multiplies in floating point)",
     "reciprocal conversions assume x != 0",
 ]
